@@ -24,12 +24,12 @@ func (c10) ID() string     { return "C10" }
 func (c10) Level() string  { return "exploration" }
 func (c10) QuickRuns() int { return 60000 }
 func (c10) Rule() string {
-	return "each evaluation is one history of <=40 stream operations (open reader/writer at a bus address biased to $8000,$8001,$FFFD-$FFFF and below $8000; read/write with chunk lengths 0,1,remaining-1,remaining,remaining+1,remaining+3,32KiB,64KiB through raw calls, io.ReadFull, io.ReadAll, io.CopyN or bufio) over an image of 32KiB..1MiB (incl. odd sizes), several streams alive at once, checked call by call against a private image copy with per-stream windows; distinct = distinct scenario hash; non-trivial = a transfer touched, reached or crossed the end of a window, or a low-half stream was used, or two windows overlapped"
+	return "each evaluation is one history of <=40 stream operations (open reader/writer at a bus address biased to $8000,$8001,$FFFD-$FFFF and below $8000; read/write with chunk lengths 0,1,remaining-1,remaining,remaining+1,remaining+3,32KiB,64KiB through raw calls, io.ReadFull, io.ReadAll, io.CopyN or bufio) over an image of 32KiB..1MiB (incl. odd sizes) or, one run in 25, 4MiB with banks biased to $7C-$7F, several streams alive at once, checked call by call against a private image copy with per-stream windows; distinct = distinct scenario hash; non-trivial = a transfer touched, reached or crossed the end of a window, or a low-half stream was used, or two windows overlapped"
 }
 func (c10) Assumptions() []string {
 	return []string{
 		"banks $00-$7F whose 32 KiB window lies inside the image (for banks >= $80 'that address's LoROM file offset' can be read with or without mirror folding, so they are not explored)",
-		"a reader opened before a later write may return, per byte, either the byte at its creation or the current one (the property only fixes what a reader opened at the same address after the write returns)",
+		"a reader returns the image bytes as they are when Read is called, also when it was opened before a writer changed them ('data written through a writer is what a reader at the same address returns'); only a reader opened before the caller re-assigned ROM.Contents is not examined",
 		"after a write that reported an error with count n, exactly p[:n] may have been stored at the write position (io.Writer contract); the stream position advances by n",
 		"known finding D2 (window ends one byte early, pinned by a baseline test) is applied as a narrow model relaxation only while its witness still fails",
 	}
@@ -46,11 +46,17 @@ func (c10) Gen(r *sim.Rand, tier string, run uint64) *sim.Scenario {
 	if tier != "thorough" && size > 0x40000 {
 		size = 0x40000
 	}
+	big := r.Chance(1, 25)
+	if big {
+		size = 0x400000 // a 4 MiB image: every bank $00-$7F has its window inside it
+	}
 	sc.Cfg["imgsize"] = int64(size)
 	nb := size >> 15
 	pickAddr := func() int64 {
 		bank := r.Intn(nb)
-		if r.Chance(1, 3) {
+		if big && r.Chance(2, 3) {
+			bank = sim.PickInt(r, 0x7F, 0x7E, 0x7D, 0x7C, 0x70, 0x60, 0x40, 0x3F, 0x20)
+		} else if r.Chance(1, 3) {
 			bank = sim.PickInt(r, 0, 1, nb-1)
 			if bank >= nb {
 				bank = nb - 1
@@ -221,8 +227,12 @@ func (c checkedReader) Read(p []byte) (int, error) {
 	for i := 0; i < n; i++ {
 		cur := w.model[s.pos+i]
 		old := s.snapshot[s.pos+i-s.start]
-		if p[i] != cur && p[i] != old {
-			w.fail("read_data", "reader delivered %02x for file offset %#x, image holds %02x (at reader creation %02x)", p[i], s.pos+i, cur, old)
+		if p[i] != cur {
+			what := "neither the image byte now nor the one at reader creation"
+			if p[i] == old {
+				what = "the byte the image held when the reader was created, before a writer changed it"
+			}
+			w.fail("read_data", "reader delivered %02x for file offset %#x, image holds %02x (at reader creation %02x): %s", p[i], s.pos+i, cur, old, what)
 			break
 		}
 	}
@@ -418,12 +428,22 @@ func (c c10) Exec(sc *sim.Scenario, env *sim.Env) (viol *sim.Violation) {
 	if size < 0x8000 {
 		size = 0x8000
 	}
-	if size > 0x100000 {
-		size = 0x100000
+	if size > 0x400000 {
+		size = 0x400000
 	}
 	env.SetWatchdog(uint64(len(sc.Ops)+4) * 20000)
 	w := &c10world{env: env, st: st, relax: env.Relax["D2"]}
-	w.img = sim.ForkSeed(sc.Seed, "image").Bytes(size)
+	if size > 0x100000 {
+		// large image: one random 64 KiB block, varied per 32 KiB bank
+		blk := sim.ForkSeed(sc.Seed, "image").Bytes(0x10000)
+		w.img = make([]byte, size)
+		for i := range w.img {
+			w.img[i] = blk[i&0xFFFF] ^ byte(i>>15) ^ byte(i>>23)
+		}
+		st.Probe("image_4MiB")
+	} else {
+		w.img = sim.ForkSeed(sc.Seed, "image").Bytes(size)
+	}
 	// a plausible header area so that NewROM accepts the image
 	hr := sim.ForkSeed(sc.Seed, "header")
 	for i := 0x7FB0; i < 0x8000 && i < size; i++ {
